@@ -87,6 +87,10 @@ func (c *Canon) expr(v ssa.Value) lin {
 		return lin{linStr(c.expr(x.X)) + "." + fn, 0}
 	case *ssa.Call:
 		if b, ok := x.Call.Value.(*ssa.Builtin); ok && b.Name() == "len" {
+			// len(make([]T, n)) is n
+			if mk, ok := x.Call.Args[0].(*ssa.MakeSlice); ok {
+				return c.expr(mk.Len)
+			}
 			return lin{"len(" + linStr(c.expr(x.Call.Args[0])) + ")", 0}
 		}
 		return lin{"v:" + vname(v), 0}
